@@ -84,7 +84,6 @@ type inliner struct {
 	siteStack []*inlSite
 	subst     map[types.Object]rope
 	exprRepl  map[ast.Node]rope
-	quiet     map[*FuncInfo]bool
 	infoOf    map[string]*types.Info
 	asgCount  map[*FuncInfo]map[types.Object]int
 	dest      *ast.File                       // file the text being produced lands in
@@ -652,14 +651,17 @@ func (in *inliner) assigns(fn *FuncInfo) map[types.Object]int {
 
 // quietFunc: the function stores only into its own local variables (no field, element or
 // pointer stores, no sends) and calls only builtins, conversions, logging and quiet functions.
-func (in *inliner) quietFunc(fi *FuncInfo, depth int) bool {
+func (p *Prog) quietFunc(fi *FuncInfo, depth int) bool {
 	if depth > 2 || fi.Decl.Body == nil {
 		return false
 	}
-	if v, ok := in.quiet[fi]; ok {
+	if p.quiet == nil {
+		p.quiet = map[*FuncInfo]bool{}
+	}
+	if v, ok := p.quiet[fi]; ok {
 		return v
 	}
-	in.quiet[fi] = false
+	p.quiet[fi] = false
 	info := fi.Info()
 	ok := true
 	ast.Inspect(fi.Decl.Body, func(n ast.Node) bool {
@@ -691,17 +693,17 @@ func (in *inliner) quietFunc(fi *FuncInfo, depth int) bool {
 				return true
 			}
 			switch lastSeg(calleeName(info, t)) {
-			case "Info", "Error", "V", "WithValues", "WithName", "Infof", "Errorf", "Sprintf", "String", "Debugf", "Warnf", "Is", "As", "Before", "After", "Equal", "IsZero", "Sub", "Add", "Unix":
+			case "Info", "Error", "V", "WithValues", "WithName", "Infof", "Errorf", "Sprintf", "String", "Debugf", "Warnf", "Is", "As", "Before", "After", "Equal", "IsZero", "Sub", "Add", "Unix", "Value":
 				return true
 			}
-			c := in.p.FuncOf(Callee(info, t))
-			if c == nil || !in.quietFunc(c, depth+1) {
+			c := p.FuncOf(Callee(info, t))
+			if c == nil || !p.quietFunc(c, depth+1) {
 				ok = false
 			}
 		}
 		return ok
 	})
-	in.quiet[fi] = ok
+	p.quiet[fi] = ok
 	return ok
 }
 
@@ -917,7 +919,7 @@ func (in *inliner) emitSite0(s *inlSite) (rope, bool) {
 				if fi := in.p.FuncOf(Callee(info, t)); fi != nil && fi.Decl.Recv != nil && in.p.pureMethod(fi, 0) {
 					return true
 				}
-				if fi := in.p.FuncOf(Callee(info, t)); fi != nil && in.quietFunc(fi, 0) {
+				if fi := in.p.FuncOf(Callee(info, t)); fi != nil && in.p.quietFunc(fi, 0) {
 					return true
 				}
 				callsQuiet = false
@@ -1751,7 +1753,7 @@ func (fm *fileMap) lookup(off int) (ovSeg, bool) {
 // overlay cannot be type-checked.
 func Normalise(p *Prog, o LoadOpts, protected map[string]bool) (*Prog, []string) {
 	in := &inliner{p: p, protected: protected, src: map[string][]byte{}, sites: map[ast.Stmt]*inlSite{},
-		imports: map[*ast.File]map[string]string{}, used: map[int]bool{}, subst: map[types.Object]rope{}, exprRepl: map[ast.Node]rope{}, quiet: map[*FuncInfo]bool{},
+		imports: map[*ast.File]map[string]string{}, used: map[int]bool{}, subst: map[types.Object]rope{}, exprRepl: map[ast.Node]rope{},
 		infoOf: map[string]*types.Info{}, asgCount: map[*FuncInfo]map[types.Object]int{}}
 	for _, fn := range p.funcList {
 		name := in.fname(fn.File.Pos())
